@@ -69,6 +69,19 @@ EffX(v) == [k |-> "effx", id |-> 0, v |-> v]
 ABy == [AOpt EXCEPT !.simple = {Eff, IncA, [k |-> "setcv"], [k |-> "sets"], EffX([k |-> "gets"]), EffX([k |-> "pk", n |-> "a"]),
                                 EffX([k |-> "idg", n |-> "a"]), EffX([k |-> "ln"]), EffX([k |-> "cnv", n |-> "a"])},
                     !.posts = {None, PAssign}]
+\* constructs outside the supported subset (C12): a small control alphabet plus exactly one such construct
+UKinds == {"lbreak", "lcont", "goto", "select", "defer", "fallyield", "ifinit", "rparr", "rfunc", "rtparam",
+           "clo-lbreak", "clo-goto", "clo-select", "clo-defer", "clo-rfunc", "clo-rparr", "clo-fall"}
+AUnsup == [simple |-> {Eff, Y(VarA)} \cup {[k |-> "unsup", u |-> u, id |-> 0] : u \in UKinds},
+           inits |-> {None}, posts |-> {None, Y(VarA)}, conds |-> {T0}, ifinits |-> {None},
+           kinds |-> {"if", "for", "switch"}, jumps |-> {"break", "continue", "return"}, ranges |-> {}]
+RECURSIVE CountU(_), CountUS(_)
+CountUS(s) == (IF s.k = "unsup" THEN 1 ELSE 0)
+              + CASE s.k = "if" -> CountU(s.a) + CountU(s.b)
+                  [] s.k = "switch" -> CountU(s.cases[1].body) + (IF Len(s.cases) > 1 THEN CountU(s.cases[2].body) ELSE 0)
+                  [] s.k \in {"block", "for"} -> CountU(s.body)
+                  [] OTHER -> 0
+CountU(b) == IF b = <<>> THEN 0 ELSE CountUS(Head(b)) + CountU(Tail(b))
 ACtlX == [ACtl EXCEPT !.kinds = @ \cup {"switchd", "tswitch", "notag"}]
 \* range loops inside generators (C04): every collection kind x variable forms x body shapes
 RangeHdr(kind, xf, kf, vf) == [k |-> "range", id |-> 0, kind |-> kind, xf |-> xf, kf |-> kf, vf |-> vf, wrap |-> "none", body |-> <<>>]
@@ -86,7 +99,7 @@ ARange == [simple |-> {Y(VarK), Y(VarV), Mut("sset", 2), Mut("sapp", 0), Mut("st
            inits |-> {None}, posts |-> {None}, conds |-> {T0}, ifinits |-> {None},
            kinds |-> {"range", "if"}, jumps |-> {"break", "continue"}, ranges |-> Ranges]
 ARangeX == [ARange EXCEPT !.simple = @ \cup {Mut("nset", 0), Mut("strset", 0), Mut("sset", 0), Mut("aset", 0)}]
-A == CASE Family = "range" -> ARange [] Family = "rangex" -> ARangeX [] Family = "ctl" -> ACtl [] Family = "scope" -> AScope [] Family = "yf" -> AYf [] Family = "yfl" -> AYfL [] Family = "panic" -> APanic [] Family = "ctlx" -> ACtlX [] Family = "eff" -> AEff [] Family = "expr" -> AExpr [] Family = "jump" -> AJump [] Family = "opt" -> AOpt [] Family = "by" -> ABy
+A == CASE Family = "range" -> ARange [] Family = "rangex" -> ARangeX [] Family = "ctl" -> ACtl [] Family = "scope" -> AScope [] Family = "yf" -> AYf [] Family = "yfl" -> AYfL [] Family = "panic" -> APanic [] Family = "ctlx" -> ACtlX [] Family = "eff" -> AEff [] Family = "expr" -> AExpr [] Family = "jump" -> AJump [] Family = "opt" -> AOpt [] Family = "by" -> ABy [] Family = "unsup" -> AUnsup
 
 \* Go scoping: `a := ...` at most once per block and never in the function's top block
 \* (a is a parameter there: "no new variables on left side of :=")
@@ -115,6 +128,7 @@ HasBoom(b) == \E j \in 1..Len(b) : HasBoomS(b[j])
 IsRangeFam == Family \in {"range", "rangex"}
 Member(p) == /\ (IF Family = "by" THEN ~HasY(p) /\ HasK(p, "effx") ELSE HasY(p)) /\ (Family = "scope" => ScopeOK(p, 0)) /\ (Family = "panic" => (HasK(p, "panic") \/ HasBoom(p)))
              /\ (IsRangeFam => HasK(p, "range"))
+             /\ (Family = "unsup" => CountU(p) = 1)
 \* range family: every program ends with an observation of the function-level kk, vv and a final yield
 \* (so range loops whose bodies do not yield are still inside a generator); a range loop without a
 \* yield may also sit in a closure nested in the generator:  func() { for ... }()
